@@ -287,6 +287,29 @@ def run(ctx):
     ctx.check("R5", LIB + ":__internal_inherit", cs.count("__ebd_read_line") == 3 and cs.count("__ebd_write_line") == 1 and "die" in cs, "bash-inherit-reads", "__internal_inherit: one request, mode line, payload line; unknown mode dies")
     ctx.floor("R5", 5)
 
+    # ---- R6 a reader used as a loop / branch condition reports success as 0 ------------------------------------------------
+    from ..core import bashstatus
+    inv = {}
+    n_fn = 0
+    for rel, bf in sorted(P.bash.items()):
+        if "/ebd/" not in rel or not rel.endswith(".bash"):
+            continue
+        n_fn += len(B.functions(bf.src))
+        for k, ln in bashstatus.inverted_status_functions(bf.src).items():
+            inv[k] = (rel, ln)
+    n_use = 0
+    for rel, bf in sorted(P.bash.items()):
+        if "/ebd/" not in rel or not rel.endswith(".bash"):
+            continue
+        for owner, ln, kind, name in bashstatus.condition_uses(bf.src, set(inv)):
+            n_use += 1
+            ctx.fail("R6", owner, f"inverted-status-as-condition:{name}",
+                     f"{owner} uses `{name}` as a `{kind}` condition, but `{name}` ({inv[name][0]}) ends in `[[ ... ]] && ...`: it returns 1 exactly when it succeeded, "
+                     f"so the loop body never runs / the branch is never taken and the rest of the message stays unread in the pipe (the next request reads it as a command)", file=rel)
+    ctx.ob("R6", "daemon bash functions", f"{n_fn} functions in the ebd sources; {len(inv)} end in a bare `test && action` ({sorted(inv)}); none of those is used as a condition", file=DAEMON)
+    ctx.require(n_fn >= 40, f"only {n_fn} bash functions parsed in the ebd sources")
+    ctx.floor("R6", 1)
+
 
 FP = "src/pkgcore/ebuild/processor.py"
 MUTANTS = [
